@@ -363,6 +363,12 @@ func runWorkers(p *Prop, r *mc.Report, env *Env, n int, budget time.Duration) in
 		fmt.Fprintln(os.Stderr, "INFRASTRUCTURE ERROR: a worker failed; no verdict")
 		return 2
 	}
+	if r.Evaluations == 0 && len(r.Violations) == 0 && freeRuns == 0 {
+		// every worker ran into the deadline (or was killed after it) without evaluating anything:
+		// that is not "held on everything explored" but nothing explored
+		fmt.Fprintln(os.Stderr, "INFRASTRUCTURE ERROR: no worker evaluated a single case before the internal deadline; no verdict")
+		return 2
+	}
 	delete(r.Extra, checkpointKey)
 	r.Set("workers", n)
 	return r.Finish(env.VerifDir)
